@@ -1038,7 +1038,7 @@ Proof. rewrite graph_of_upd_over. symmetry. apply up1_graph. Qed.
 Lemma up1_refines : acyclic g1 ->
   exists si ss, i_upsert true s [e] = TOk si /\ s_compute s (OUpsert true [e]) = TOk ss /\ agree si ss.
 Proof.
-  intros Hacy. unfold i_upsert, s_compute. cbn [fold_left s_edit].
+  intros Hacy. unfold i_upsert, s_compute. cbn [fold_left s_edit latest_versions existsb].
   rewrite (surjective_pairing (i_upsert_one (s, []) e)). fold s1. fold T. cbv beta iota.
   unfold finish. apply refine_finish.
   - apply upd_over_keys. apply HI.
@@ -1050,7 +1050,7 @@ Qed.
 
 Lemma up1_cycle : i_upsert true s [e] = TErr ECycle -> s_compute s (OUpsert true [e]) = TErr ECycle.
 Proof.
-  intros H. unfold i_upsert in H. cbn [fold_left] in H.
+  intros H. unfold i_upsert in H. cbn [fold_left latest_versions existsb] in H.
   rewrite (surjective_pairing (i_upsert_one (s, []) e)) in H. fold s1 in H. fold T in H. cbv beta iota in H.
   unfold finish in H. pose proof (repair_sound s1 (touch_descendants T s1) up1_sound) as RS.
   rewrite H in RS. destruct RS as [x [Hk Hr]].
@@ -1067,7 +1067,7 @@ Lemma upsert_absent_is_add s e : find (fst e) s = None ->
   /\ s_compute s (OUpsert true [e]) = s_compute s (OAdd true [e])
   /\ insert_all s [e] = TOk (upd_over s e).
 Proof.
-  intros F. unfold i_upsert, i_add, s_compute. cbn [fold_left s_edit i_add_loop insert_all].
+  intros F. unfold i_upsert, i_add, s_compute. cbn [fold_left s_edit i_add_loop insert_all latest_versions existsb].
   unfold i_upsert_one, upd_noover, upd_over. rewrite !F. cbn [fst snd]. rewrite ?F. repeat split; rewrite ?F; reflexivity.
 Qed.
 
